@@ -30,8 +30,8 @@ def badRetry (pre : GateState) (p : PacketSummary) : Bool :=
 /-- a packet that must have no effect in state `pre`, whatever else is going on -/
 def mustBeInert (pre : GateState) (p : PacketSummary) : Bool :=
   match p.kind with
-  | .retry => badRetry pre p || pre.receivedFirstPacket || pre.receivedRetry || p.srcConnID == pre.destConnID
-  | .vn => pre.receivedFirstPacket || pre.versionNegotiated || p.vnVersions.contains pre.version
+  | .retry => pre.perspective == .server || badRetry pre p || pre.receivedFirstPacket || pre.receivedRetry || p.srcConnID == pre.destConnID
+  | .vn => pre.perspective == .server || pre.receivedFirstPacket || pre.versionNegotiated || p.vnVersions.contains pre.version
   | .initial => !p.opens || (pre.receivedFirstPacket && p.srcConnID != pre.handshakeDestConnID)
   | _ => !p.opens
 
